@@ -271,7 +271,7 @@ func ruleLogShapes(c *eng.Ctx) {
 			stored := false
 			eng.Instrs(fn, func(in ssa.Instruction) {
 				if st, isSt := in.(*ssa.Store); isSt {
-					if _, isIA := st.Addr.(*ssa.IndexAddr); isIA && st.Val == rep[0].Common().Args[0] {
+					if _, isIA := st.Addr.(*ssa.IndexAddr); isIA && eng.Strip(st.Val) == eng.Strip(rep[0].Common().Args[0]) {
 						stored = true
 					}
 				}
